@@ -718,6 +718,11 @@ func TestVerifC04(t *testing.T) {
 		defer x.merge(st)
 		ca := x.mkCA(st, it.cv, it.cu, it.g, it.n, it.u)
 		var n int64
+		defer func() {
+			mu.Lock()
+			tbsCount += n
+			mu.Unlock()
+		}()
 		for _, lg := range groups {
 			for _, ln := range c04LeafNets(it.tv, thorough) {
 				for _, lu := range c04LeafUnsafe(it.tv, thorough) {
@@ -744,9 +749,6 @@ func TestVerifC04(t *testing.T) {
 				}
 			}
 		}
-		mu.Lock()
-		tbsCount += n
-		mu.Unlock()
 	})
 	if !complete {
 		c.Capped("box 1 time budget")
